@@ -1,7 +1,7 @@
 SPECIFICATION Spec
 CONSTANTS
   Limits = {"1", "2k", "64k", "maxint"}
-  Sizes = {"natural", "lim-1", "lim", "lim+1", "x100"}
+  Sizes = {"natural", "lim-1", "lim", "lim+1", "x100", "lim_min"}
   Entries = {"validate", "validateEncInner", "info", "predecodeResp", "predecodeLogout", "logoutReq", "logoutResp"}
 INVARIANTS InvC12 RunAgrees Emit
 PROPERTIES Frozen Terminates
